@@ -262,6 +262,12 @@ impl<G: AffineRepr> InnerProductProof<G> {
         if n != (1 << lg_n) {
             return Err(ProofError::VerificationError);
         }
+        if self.R_vec.len() != lg_n {
+            // L_vec and R_vec hold one point per round; a proof whose lists
+            // differ in length is malformed and must not reach the indexing
+            // and multiscalar code below.
+            return Err(ProofError::VerificationError);
+        }
 
         <Transcript as TranscriptProtocol<G>>::innerproduct_domain_sep(transcript, n as u64);
 
